@@ -35,10 +35,38 @@ type world struct {
 
 var theWorld *world
 
-const repoDir = "/repo"
+// repoDir is /repo; VERIF_REPO points the whole machinery at another checkout (used to evaluate
+// a seeded change in its scratch worktree while /repo stays untouched): a scratch module whose
+// replace directive names that checkout is generated, and evidence goes to out/alt/.
+var repoDir, moduleDir = func() (string, string) {
+	alt := os.Getenv("VERIF_REPO")
+	if alt == "" {
+		return "/repo", "/verif/engine"
+	}
+	mod, err := os.ReadFile("/verif/engine/go.mod")
+	if err != nil {
+		panic(err)
+	}
+	sum, _ := os.ReadFile("/verif/engine/go.sum")
+	dir, err := os.MkdirTemp("", "gosym-mod-")
+	if err != nil {
+		panic(err)
+	}
+	s := strings.Replace(string(mod), "=> /repo", "=> "+alt, 1)
+	s = strings.Replace(s, "module verif/engine", "module verif/altengine", 1)
+	os.WriteFile(filepath.Join(dir, "go.mod"), []byte(s), 0o644)
+	os.WriteFile(filepath.Join(dir, "go.sum"), sum, 0o644)
+	return alt, dir
+}()
 const repoMod = "github.com/hashicorp/hcl-lang"
 
-var harnessDir = "/verif/harness"
+var harnessDir = func() string {
+	// development only: work on a copy of the harnesses while checks run on the committed ones
+	if d := os.Getenv("VERIF_HARNESS_DIR"); d != "" {
+		return d
+	}
+	return "/verif/harness"
+}()
 
 // harnessOverlay maps /verif/harness/<pkgdir>/*.go to /repo/<pkgdir>/zz_verif_*.go
 func harnessOverlay() (map[string][]byte, []string, error) {
@@ -118,7 +146,7 @@ func loadWorld(extraOverlay map[string][]byte) (*world, error) {
 	}
 	cfg := &packages.Config{
 		Mode:    packages.LoadAllSyntax,
-		Dir:     "/verif/engine",
+		Dir:     moduleDir,
 		Overlay: ov,
 		Env:     append(os.Environ(), "GOFLAGS=-mod=mod", "GOPROXY=off", "GOSUMDB=off", "GOTOOLCHAIN=local"),
 	}
